@@ -35,16 +35,17 @@
                              postprocess_block makes of one, consists of trees valid at every edge whose roots a Paragraph
                              and a Heading accept, and a TableCell too when the input holds no CR / LF
      Parse_valid_report_sound  the executable report tools/checks/c04.py evaluates (premise, conclusion) is sound
-     Parse_cells_scanner / Parse_cells_row / Parse_cells_blocks
+     Parse_cells_row / Parse_cells_blocks
                              the premise, for every input: the prefix scanners::table_cell returns holds neither CR nor LF
-                             (both spoiler settings), so every cell table.rs::row cuts is free of them (unescape_pipes and
-                             trim only remove bytes); and the block phase never puts a line end into a TableCell (add_line
-                             is only applied to a Paragraph, a Heading, a CodeBlock, an HtmlBlock): bcells_ok of the block tree
+                             (both spoiler settings: Props/ParseValid.v Parse_cells_scanner), so every cell table.rs::row cuts
+                             is free of them (unescape_pipes and trim only remove bytes); and the block phase never puts a
+                             line end into a TableCell (add_line is only applied to a Paragraph, a Heading, a CodeBlock, an
+                             HtmlBlock): bcells_ok of the block tree
      Parse_valid             = Parse_valid_full_statement: C04, tree clause, ALL of Spec.Valid.structurally_valid for EVERY
                              tree the parser model returns, no premise
-     Parse_validator_accepts / Parse_formatters_total / Parse_valid_report_true
-                             what follows without premise: the validator model accepts the tree, the HTML and XML renderer
-                             models return Ok on it, the report of the check answers (true, true) whenever it answers
+                             Props/ParseValid.v (obligations of C04 only): Parse_valid_corollaries - the validator model
+                             accepts the tree, the HTML and XML renderer models return Ok on it, the report of the check
+                             answers (true, true) whenever it answers
      Parse_line_invariance   C08 for the whole pipeline: without a front matter delimiter, equal lines and equal
                              reference budget max_ref_size(total_size) give the same result (tree or panic)
    Props/ParseMore.v: Parse_final_tree_sp_shape (Parser_shape for final_tree_sp), Parse_final_tree_sp_none (final_tree_sp with no
@@ -189,13 +190,6 @@ Proof. vm_compute. split; reflexivity. Qed.
 
 (* ================================================================== C04, the tree clause WITHOUT premise (third wave) *)
 From V Require Proofs.ParseCellsRow Proofs.ParseCellsWalk Proofs.ParseCells.
-From V Require Model.Scan.
-
-(* scanners::table_cell(s, spoiler), both spoiler settings: the prefix it returns holds neither CR nor LF *)
-Theorem Parse_cells_scanner : forall s spoiler n,
-  Scan.scan_table_cell s spoiler = Some n -> no_nl (firstn n s) = true.
-Proof. exact ParseCellsRow.table_cell_bytes. Qed.
-Print Assumptions Parse_cells_scanner.
 
 (* table.rs::row: every cell it returns is free of CR and LF, for every input string and both spoiler settings *)
 Theorem Parse_cells_row : forall s spoiler po cells,
@@ -212,22 +206,6 @@ Print Assumptions Parse_cells_blocks.
 Theorem Parse_valid : Parse_valid_full_statement.
 Proof. exact ParseCells.parse_valid. Qed.
 Print Assumptions Parse_valid.
-
-(* the validator (Spec.Valid.validate, the model of nodes::Node::validate) accepts every tree the parser model returns *)
-Theorem Parse_validator_accepts : forall o u x t, parse_document_model o u x = Ok t -> validate t = None.
-Proof. exact ParseCells.parse_validator_accepts. Qed.
-Print Assumptions Parse_validator_accepts.
-
-(* both renderer models return Ok on it (bytes, not only events) *)
-Theorem Parse_formatters_total : forall o u x t slug ro,
-  parse_document_model o u x = Ok t -> (exists b, html slug ro t = Ok b) /\ (exists b, xml ro t = Ok b).
-Proof. exact ParseCells.parse_formatters_total. Qed.
-Print Assumptions Parse_formatters_total.
-
-(* the report the C04 check evaluates answers (true, true) whenever it answers *)
-Theorem Parse_valid_report_true : forall o u x c v, parse_valid_report o u x = Some (c, v) -> c = true /\ v = true.
-Proof. exact ParseCells.parse_valid_report_true. Qed.
-Print Assumptions Parse_valid_report_true.
 
 (* non-vacuity: a row with an escaped pipe (the backslash is removed, the pipe stays in the cell), and the header row taken
    from the LAST line of a two-line paragraph (the cells do not span the line end) *)
